@@ -46,7 +46,9 @@ uint64_t vf_hash_mix(uint64_t a, uint64_t b);
 /* ---- allocator owned by the harness (installed through jwt_set_alloc) ---- */
 void vf_alloc_install(void);
 void vf_lfree(void *p);            /* free a block the library allocated (tokens, GET_JSON text) keeping the count balanced */
-void vf_alloc_guard(int on);       /* guard-page placement for blocks allocated from now on (switch only when no block is live) */
+void vf_alloc_guard(int on);
+void vf_alloc_recycle(int on);   /* freed blocks are reused LIFO per size (address reuse made certain); parked blocks are poisoned */
+long vf_alloc_reused(void);       /* guard-page placement for blocks allocated from now on (switch only when no block is live) */
 long vf_alloc_live(void);           /* live blocks handed out and not yet freed */
 long vf_alloc_total(void);          /* allocation requests so far */
 void vf_alloc_reset_counter(void);
